@@ -791,3 +791,96 @@ Proof.
   - intros i nd Hg. specialize (Hn i nd Hg). unfold node_okb in Hn. rewrite !andb_true_iff in Hn. destruct Hn as (_ & Hn).
     apply Bool.eqb_prop. exact Hn.
 Qed.
+
+(* ---- a name of a node without entries goes away: the states stay related ------------------------------------ *)
+Lemma no_self_edge h p c : Inv_heap h -> alookup str_eqb c (children h p) <> Some p.
+Proof.
+  intros Hinv Hl. apply (@I5_acyclic _ Hinv p). exists p, c. split; [apply reach_refl|]. unfold edge. apply al_in. exact Hl.
+Qed.
+
+Lemma orel_unlink (o o' : ofs) (s s' : fsys) (sv : sview) (ps : list str) (c : str) (p i : nat) (px x : onode) :
+  ohyps s sv -> orel o s sv -> gcs (ps ++ [c]) ->
+  twalk (f_heap s) (v_root (sv_view sv)) ps = Some p -> ofind o (rpath ps) = Some (p, px) ->
+  node_is_dir (f_heap s) p = true -> alookup str_eqb c (children (f_heap s) p) = Some i ->
+  ofind o (rpath (ps ++ [c])) = Some (i, x) -> children (f_heap s) i = [] ->
+  o_os o' = o_os o -> o_user o' = o_user o -> o_umask o' = o_umask o ->
+  o_index o' = aremove str_eqb (rpath (ps ++ [c])) (o_index o) ->
+  o_heap o' = o_del_child (o_release (o_heap o) i) p c ->
+  f_heap s' = delete_node (remove_child (f_heap s) p c) i ->
+  orel o' s' sv.
+Proof.
+  intros Hh Hr Hg Hw Hfp Hpd Hci Hfi Hleaf Eos Eus Eum Eidx Eheap Esh.
+  pose proof (or_len _ _ _ Hr) as Hlen. set (h := f_heap s) in *.
+  apply ofind_some in Hfp. destruct Hfp as [Hip Hop]. apply ofind_some in Hfi. destruct Hfi as [Hii Hoi].
+  assert (Hip' : i <> p) by (intros ->; exact (no_self_edge h p c (oh_inv _ _ Hh) Hci)).
+  assert (Hplt : p < length h). { rewrite node_is_dir_get in Hpd. destruct (get h p) eqn:E; [|discriminate]. eapply get_lt; eauto. }
+  assert (Hgp : exists chp m, get h p = Some (NDir chp m)) by (apply is_dir_get; exact Hpd).
+  destruct Hgp as (chp & mp & Hgp).
+  pose proof (or_node _ _ _ Hr p) as Hnp. rewrite Hop in Hnp. fold h in Hnp. rewrite Hgp in Hnp. cbn [nrel] in Hnp.
+  destruct Hnp as (y & [= <-] & Hpxd & Hpxc & Hpxm).
+  assert (Hilt : i < length h). { apply (I1_valid (oh_inv _ _ Hh) p c i). unfold edge. apply al_in. exact Hci. }
+  destruct (get_some h i Hilt) as (ni & Hgi).
+  pose proof (or_node _ _ _ Hr i) as Hni. rewrite Hoi in Hni. fold h in Hni. rewrite Hgi in Hni.
+  set (h1 := upd h p (NDir (aremove str_eqb c chp) mp)).
+  assert (Hh1 : remove_child h p c = h1) by (unfold remove_child; rewrite Hgp; reflexivity).
+  assert (Hg1i : get h1 i = Some ni) by (unfold h1; rewrite get_upd; destruct (Nat.eqb_spec i p); [congruence|exact Hgi]).
+  set (ni' := match ni with NDir _ m => NDir [] m | NFile d k id m => NFile d (k - 1)%Z id m | NSym _ m => NSym [] m end).
+  assert (Hheap' : f_heap s' = upd h1 i ni').
+  { rewrite Esh. fold h. rewrite Hh1. unfold delete_node. rewrite Hg1i. unfold ni'. destruct ni; reflexivity. }
+  assert (Hni'ch : node_children ni' = []) by (unfold ni'; destruct ni; reflexivity).
+  assert (Hrootv : v_root (sv_view sv) < length h).
+  { pose proof (oh_root _ _ Hh) as H. rewrite node_is_dir_get in H. fold h in H. destruct (get h (v_root (sv_view sv))) eqn:E; [|discriminate]. eapply get_lt; eauto. }
+  assert (Hch : forall d c1, d < length h ->
+            alookup str_eqb c1 (children (f_heap s') d) = if Nat.eqb d p && str_eqb c1 c then None else alookup str_eqb c1 (children h d)).
+  { intros d c1 Hd. rewrite Hheap', children_upd. unfold h1 at 1. rewrite upd_length.
+    destruct (Nat.eqb_spec d i) as [->|Hdi].
+    - destruct (Nat.ltb_spec i (length h)); [|lia]. rewrite Hni'ch. destruct (Nat.eqb_spec i p); [congruence|]. cbn [andb alookup].
+      rewrite Hleaf. reflexivity.
+    - unfold h1. rewrite children_upd. destruct (Nat.eqb_spec d p) as [->|Hdp]; cbn [andb]; [|reflexivity].
+      destruct (Nat.ltb_spec p (length h)); [|lia]. cbn [node_children]. rewrite (children_get h p), Hgp. cbn [node_children].
+      destruct (str_eqb_spec c1 c) as [->|Hc1]; [apply al_aremove_eq|apply al_aremove_neq; exact Hc1]. }
+  constructor.
+  - rewrite Eos. apply (or_os _ _ _ Hr).
+  - rewrite Eus. apply (or_user _ _ _ Hr).
+  - rewrite Eum. apply (or_umask _ _ _ Hr).
+  - rewrite Eidx. unfold ikey. rewrite al_aremove_neq; [apply (or_slash _ _ _ Hr)|].
+    intros E. symmetry in E. revert E. apply rpath_not_slash. apply gcs_ok. exact Hg.
+  - intros cs' Hcs'. rewrite Eidx.
+    rewrite (twalk_edit h (f_heap s') (v_root (sv_view sv)) p ps c None (oh_inv _ _ Hh) Hrootv Hw Hpd Hch (fun _ _ (E : None = Some _) => match E with end) cs' [] _ eq_refl)
+      by (apply strip_none; intros t E; destruct ps; discriminate).
+    cbn [app]. destruct (strip (ps ++ [c]) cs') as [[|y l]|] eqn:Es.
+    + apply strip_some in Es. rewrite app_nil_r in Es. subst cs'. unfold ikey. apply al_aremove_eq.
+    + apply strip_some in Es. subst cs'. unfold ikey. rewrite al_aremove_neq.
+      * fold (ikey (o_index o) (rpath ((ps ++ [c]) ++ y :: l))). rewrite (or_index _ _ _ Hr _ Hcs'). fold h.
+        rewrite twalk_app, twalk_snoc, Hw, Hci. cbn [twalk]. rewrite Hleaf. reflexivity.
+      * intros E. apply rpath_inj in E; [|apply gcs_ok; exact Hcs'|apply gcs_ok; exact Hg].
+        apply (f_equal (@length str)) in E. rewrite !app_length in E. cbn [length] in E. lia.
+    + unfold ikey. rewrite al_aremove_neq.
+      * apply (or_index _ _ _ Hr _ Hcs').
+      * intros E. apply rpath_inj in E; [|apply gcs_ok; exact Hcs'|apply gcs_ok; exact Hg]. subst cs'.
+        rewrite <- (app_nil_r (ps ++ [c])) in Es at 2. rewrite strip_app in Es. discriminate.
+  - rewrite Eheap, Hheap'. unfold o_del_child, o_release. rewrite Hoi.
+    rewrite (oget_oupd _ _ _ _ _ Hoi). destruct (Nat.eqb_spec i p); [congruence|]. rewrite Hop.
+    rewrite !oupd_length, !upd_length. unfold h1. rewrite upd_length. exact Hlen.
+  - intros j. rewrite Eheap, Hheap'. unfold o_del_child, o_release. rewrite Hoi.
+    assert (Hop1 : oget (oupd (o_heap o) i (on_remove x)) p = Some px).
+    { rewrite (oget_oupd _ _ _ _ _ Hoi). destruct (Nat.eqb_spec i p); [congruence|exact Hop]. }
+    rewrite Hop1. rewrite (oget_oupd _ _ _ _ _ Hop1). rewrite get_upd. unfold h1 at 1. rewrite upd_length.
+    destruct (Nat.eqb_spec p j) as [<-|Hpj].
+    + destruct (Nat.eqb_spec p i); [congruence|]. unfold h1. rewrite get_upd, Nat.eqb_refl.
+      destruct (Nat.ltb_spec p (length h)); [|lia]. cbn [nrel]. eexists. split; [reflexivity|].
+      unfold on_dir. cbn [on_with_ch on_meta on_ch]. split; [exact Hpxd|]. split; [rewrite Hpxc; reflexivity|exact Hpxm].
+    + rewrite (oget_oupd _ _ _ _ _ Hoi). destruct (Nat.eqb_spec j i) as [->|Hji].
+      * rewrite Nat.eqb_refl. destruct (Nat.ltb_spec i (length h)); [|lia]. unfold ni'.
+        destruct ni as [chi mi|d k id mi|t mi]; cbn [nrel] in Hni |- *.
+        -- destruct Hni as (y & Ey & Hd & _ & Hm). inversion Ey; subst y. eexists. split; [reflexivity|].
+           unfold on_dir in *. cbn [on_remove on_meta on_ch]. auto.
+        -- destruct Hni as (y & Ey & Hd & Hc & Hk & Hm & Hdata). inversion Ey; subst y. eexists. split; [reflexivity|].
+           unfold on_dir in Hd.
+           unfold on_dir. cbn [on_remove on_meta on_ch on_nlink on_data].
+           split; [exact Hd|]. split; [reflexivity|]. split; [rewrite Hk; reflexivity|]. split; [exact Hm|].
+           intros Hk1. apply Hdata. apply (file_named s sv Hh p c i d k id mi Hci Hgi).
+        -- exact I.
+      * destruct (Nat.eqb_spec i j); [congruence|]. unfold h1. rewrite get_upd.
+        destruct (Nat.eqb_spec j p); [congruence|]. apply (or_node _ _ _ Hr j).
+Qed.
